@@ -36,7 +36,7 @@ def run(ctx, replay=None):
         return bind(ctx)
     r = ctx.tlc("client", "MCRetry", ctx.pick("RetrySmall.cfg", "Retry.cfg"), workers=WORKERS, timeout=3000)
     ctx.exhaustive = {"cfg": ctx.pick("RetrySmall.cfg", "Retry.cfg"), "distinct_states": r.distinct, "depth": r.depth}
-    ctx.tlc("client", "MCRetry", "RetryLive.cfg", workers=WORKERS, timeout=3000)
+    ctx.tlc("client", "MCRetry", ctx.pick("RetryLive.cfg", "RetryLiveFull.cfg"), workers=WORKERS, timeout=3000)
     bind(ctx)
 
 
